@@ -82,3 +82,6 @@ func NewGhost(name string, iw, w int) *Ghost  { return &Ghost{} }
 func (g *Ghost) Get(i uint64) uint64          { return 0 }
 func (g *Ghost) Set(i uint64, v uint64)       {}
 func Note(s string)                           {}
+
+// Param returns the tier-specific bound from the obligation's spec.
+func Param(name string) int { return 0 }
